@@ -375,6 +375,7 @@ fn plan(tier: Tier) -> usize {
 pub fn worker(ctx: &mut WorkerCtx) {
     let depth = plan(ctx.tier);
     let mut idx = 0u64;
+    let mut owned = 0u64;
     let nops = OPS.len() as u64;
     for len in 0..=depth {
         let total = nops.pow(len as u32);
@@ -386,7 +387,8 @@ pub fn worker(ctx: &mut WorkerCtx) {
                     ops.push(OPS[(k % nops) as usize]);
                     k /= nops;
                 }
-                if i % 512 == 0 {
+                owned += 1;
+                if owned % 256 == 1 {
                     ctx.mark(idx, 0, ops_str(&ops).as_bytes());
                 }
                 for st in STARTS {
